@@ -72,6 +72,10 @@ def Cursor.run (c : Cursor) : List CursorOp → Cursor × List CursorOut
     let (c'', os) := Cursor.run c' ops
     (c'', o :: os)
 
+/-- `executemany(statement, parameter sets)`: `execute` for each parameter set in turn (`cursor.py`) -/
+def Cursor.executemany (c : Cursor) (results : List (List (String × String) × List CRow)) : Cursor :=
+  results.foldl (fun c r => (c.step (.execute r.1 r.2)).1) c
+
 /-- several cursors of one connection: each call addresses one of them -/
 def stepAt (cs : List Cursor) (i : Nat) (op : CursorOp) : List Cursor :=
   match cs[i]? with
